@@ -114,6 +114,13 @@ Section Str.
   Proof. cbn [dec_ty]. ev. unfold dec_dv. ev. unfold dec_dv_fields. ev. unfold dec_value, dec_scalar, dec_str. ev. fin. Qed.
   Lemma ctx10_bad bs : rejected (run (dec_ty TDV o O) (1 :: 12 :: bs)).
   Proof. cbn [dec_ty]. ev. unfold dec_dv. ev. eexists; reflexivity. Qed.
+  Lemma ctx21 d bs : same_shape (run (dec_ty (TS 16) o d) bs) (run S bs).
+  Proof. cbn [dec_ty]. unfold dec_scalar, dec_str. ev. fin. Qed.
+  Lemma ctx22 d bs : same_shape (run (dec_ty (TS 21) o d) (1 :: bs)) (run S bs).
+  Proof. cbn [dec_ty]. unfold dec_scalar. ev. unfold dec_ltext, dec_str. ev. fin. Qed.
+  Lemma ctx23 d bs : same_shape (run (dec_ty TVar o d) (16 :: bs)) (run S bs).
+  Proof. cbn [dec_ty]. ev. unfold dec_value, dec_scalar, dec_str. ev. fin. Qed.
+
   (* the prefix declares an array of one element *)
   Ltac one := change (Z.to_nat 1) with 1%nat; cbn [dec_n].
   Lemma ctx8 d bs : (max_arr o <? 1) = false ->
